@@ -238,4 +238,22 @@ def rule_A6c(tree: Tree) -> RuleResult:
     r.instances += 1
     args = [dotted(a) for a in call.args]
     r.ob("server_ports" in args, Finding("A6c", "main:handle_packet:session-ports-arg", "the server-port list tested must be the one handed to Session (role binding uses it)", f.module.line(call)))
+    # dispatch inventory: a packet is handed only to the session that matched it; the port test is the only condition of creating a session
+    r.instances += 1
+    stray = []
+    n_disp = 0
+    for c in body_walk(f.node):
+        if isinstance(c, ast.Call) and isinstance(c.func, ast.Attribute) and c.func.attr in ("handle_packet", "get_tls_records", "decrypt"):
+            n_disp += 1
+            recv = dotted(c.func.value)
+            facts = [(src(e), t) for e, t in cfg.facts_at(cfg.node_of(c))]
+            if not any(s == f"{recv}.matches_session(packet)" and t for s, t in facts):
+                stray.append(src(c, 70))
+    r.ob(n_disp >= 1 and not stray, Finding("A6c", "main:handle_packet:unmatched-dispatch",
+                                            f"`{stray[0] if stray else ''}` hands the packet to a session that did not match it (matches_session(packet))", f.module.line(f.node)))
+    r.instances += 1
+    extra = [src(e, 60) for e, t in cfg.facts_at(nid) if "server_ports" not in src(e, 200) and "matches_session" not in src(e, 200)]
+    r.ob(not extra, Finding("A6c", "main:handle_packet:session-creation-extra-condition",
+                            f"a session is created for every unmatched packet on a server port; found the additional condition(s) {extra[:3]} (e.g. secrets that arrive later in the "
+                            f"capture would find no session)", f.module.line(call)))
     return r
